@@ -26,6 +26,9 @@ pub struct WorkerResult {
     pub aborted: u64,
     pub steps: u64,
     pub nontrivial_hashes: BTreeSet<String>,
+    /// non-trivial cases counted directly (exhaustive enumerations: cases are distinct by construction)
+    #[serde(default)]
+    pub nontrivial_count: u64,
     /// sum of counters over all cases
     pub counters: BTreeMap<String, u64>,
     /// number of cases in which each counter was > 0
@@ -42,6 +45,8 @@ impl WorkerResult {
         self.aborted += o.aborted;
         self.steps += o.steps;
         self.nontrivial_hashes.extend(o.nontrivial_hashes);
+        self.nontrivial_count += o.nontrivial_count;
+        self.exhaustive = self.exhaustive || o.exhaustive;
         for (k, v) in o.counters {
             *self.counters.entry(k).or_insert(0) += v;
         }
